@@ -16,7 +16,7 @@ Definition run_show (cases : list ((registry * rty) * (str * fobs))) : list N :=
 Definition path_eqb (a b : path) : bool :=
   match a, b with
   | PNone, PNone | PText, PText | PContent, PContent | PCast, PCast | PStreamBytes, PStreamBytes
-  | PStreamSse, PStreamSse | PRaiseHTTP, PRaiseHTTP | PGenError, PGenError => true
+  | PStreamSse, PStreamSse | PEndIter, PEndIter | PRaiseHTTP, PRaiseHTTP | PGenError, PGenError => true
   | PStructure c, PStructure c' => str_eqb c c'
   | _, _ => false
   end.
@@ -25,7 +25,7 @@ Definition pobs_eqb (a b : pobs) : bool :=
   let '(p1, i1, a1) := a in let '(p2, i2, a2) := b in path_eqb p1 p2 && Bool.eqb i1 i2 && str_eqb a1 a2.
 Definition model_p (d : dcase) : pobs := (the_path d, the_imported d, the_annotation d).
 Definition guards_p (d : dcase) : list bool :=
-  [guard_F05b d; guard_F05c d; guard_F05f d; guard_F05h d; guard_F05i d].
+  [guard_F05b d; guard_F05c d; guard_F05f d; guard_F05i d].
 Definition run (cases : list (dcase * pobs)) : list N := report pobs_eqb model_p guards_p cases.
 (* bit 6: the model itself says the property holds (used by the harness only as a cross-check of the oracle) *)
 Definition run_holds (cases : list dcase) : list N := map (fun d => if C05_holds d then 1 else 0) cases.
